@@ -54,7 +54,7 @@ class Store:
                 self.points = points
                 if isinstance(cells, dict):
                     cells = list(cells.items())
-                self.cells = [types.SimpleNamespace(type=t, data=d) for t, d in cells]
+                self.cells = [types.SimpleNamespace(type=c_.type, data=c_.data) if hasattr(c_, "type") else types.SimpleNamespace(type=c_[0], data=c_[1]) for c_ in cells]
                 self.point_data = point_data
                 self.cell_data = cell_data
 
@@ -148,6 +148,40 @@ def case_read_cellblock(ctx, cellblock):
             ctx.equal("cell_corners_of_mesh_%d_are_those_of_the_file_block" % k, np.asarray(m_.points)[np.asarray(m_.cells)], X[c])
 
 
+def case_container_as_meshio(ctx, combined):
+    """MeshContainer.as_meshio on a container with two blocks of the SAME cell type and one of another type (quad, triangle, quad),
+    symbolic points: every cell keeps its corners; combined=True: one block per cell type holding the container's cells of that
+    type in container order (so that cell data given in container order stays attached to its cells)"""
+    import meshio
+
+    with ctx.concrete():
+        a = fem.Rectangle(n=2)
+        b = fem.Rectangle(a=(1, 0), b=(2, 1), n=2).triangulate()
+        c = fem.Rectangle(a=(2, 0), b=(4, 1), n=(3, 2))
+    meshes = []
+    for k, m0 in enumerate((a, b, c)):
+        meshes.append(fem.Mesh(ctx.array("X%d" % k, m0.points.shape, -3, 3), m0.cells, m0.cell_type))
+    cont = fem.MeshContainer(meshes)
+    store = Store()
+    orig = meshio.Mesh
+    meshio.Mesh = store.mesh_class()
+    try:
+        mm = cont.as_meshio(combined=combined)
+    finally:
+        meshio.Mesh = orig
+    P = np.asarray(mm.points)
+    blocks = [(blk.type, np.asarray(blk.data)) for blk in mm.cells]
+    corners = lambda m_: np.asarray(m_.points)[m_.cells]  # noqa: E731
+    if combined:
+        want = [("quad", np.concatenate([corners(meshes[0]), corners(meshes[2])])), ("triangle", corners(meshes[1]))]
+    else:
+        want = [(m_.cell_type, corners(m_)) for m_ in meshes]
+    ctx.check_concrete("block_types_and_sizes", [(t, d.shape[0]) for t, d in blocks] == [(t, w.shape[0]) for t, w in want], "blocks %s" % [(t, d.shape) for t, d in blocks])
+    if [(t, d.shape[0]) for t, d in blocks] == [(t, w.shape[0]) for t, w in want]:
+        for k, ((t, d), (_, w)) in enumerate(zip(blocks, want)):
+            ctx.equal("cells_of_block_%d_keep_their_corners_in_container_order" % k, P[d][..., :2], w)
+
+
 class Writer:
     log = None
 
@@ -169,7 +203,7 @@ class Writer:
         Writer.log.append(("data", time, point_data, cell_data))
 
 
-def case_job_writer(ctx, with_x0=False):
+def case_job_writer(ctx, with_x0=False, defaults=None):
     import meshio.xdmf
 
     field = tiny_field(ctx)
@@ -183,7 +217,7 @@ def case_job_writer(ctx, with_x0=False):
         item = RampItem(ctx, f_item, n, "a")
     else:
         item = RampItem(ctx, field, n, "a")
-    ramp = ctx.array("ramp", (3,), -1, 1)
+    ramp = ctx.array("ramp", (3 if defaults is None else 1,), -1, 1)
     with ctx.concrete():
         mask = np.zeros(4, dtype=bool)
         mask[0] = True
@@ -204,7 +238,7 @@ def case_job_writer(ctx, with_x0=False):
             maxiter=1,
             tol=tol,
             verbose=False,
-            cell_data_default=False,
+            **({"cell_data_default": False} if defaults is None else {"point_data_default": defaults[0], "cell_data_default": defaults[1]}),
             point_data={"twice": lambda field, substep: 2 * field[0].values},
             cell_data={"first_value": lambda field, substep: [np.asarray(field[0].values)[:1]]},
             **({"x0": field} if with_x0 else {}),
@@ -216,7 +250,16 @@ def case_job_writer(ctx, with_x0=False):
     ev = Writer.log
     frames = [e for e in ev if e[0] == "data"]
     ctx.check_concrete("points_and_cells_written_once_before_frames", [e[0] for e in ev][:2] == ["open", "points_cells"] and sum(e[0] == "points_cells" for e in ev) == 1)
-    ctx.check_concrete("one_frame_per_converged_substep_in_order", [f[1] for f in frames] == list(range(len(seen_cb))) and (failed or len(frames) == 3))
+    ctx.check_concrete("one_frame_per_converged_substep_in_order", [f[1] for f in frames] == list(range(len(seen_cb))) and (failed or len(frames) == len(ramp)))
+    if defaults is not None:
+        # the documented default data: "Displacement" (point data) iff point_data_default, the two logarithmic-strain items and
+        # "Deformation Gradient" (cell data) iff cell_data_default -- the two flags are independent; custom items always
+        dflt_c = {"Principal Values of Logarithmic Strain", "Logarithmic Strain", "Deformation Gradient"}
+        ok = all((("Displacement" in fr[2]) == bool(defaults[0])) and ("twice" in fr[2]) and ((dflt_c <= set(fr[3])) == bool(defaults[1])) and (defaults[1] or not (dflt_c & set(fr[3]))) and ("first_value" in fr[3]) for fr in frames)
+        ctx.check_concrete("default_point_and_cell_data_follow_their_own_flags", ok, "keys %s" % [(sorted(fr[2]), sorted(fr[3])) for fr in frames][:1])
+        s_ = ctx.var("s", 0.5, 2)
+        ctx.equal("solver_content", s_ * 1, s_)
+        return
     ctx.check_concrete("writer_closed", ev[-1] == ("close",))
     pc = [e for e in ev if e[0] == "points_cells"][0]
     want = field.region.mesh.points
@@ -228,6 +271,48 @@ def case_job_writer(ctx, with_x0=False):
         ctx.equal("frame_%d_displacement_padding" % k, disp[:, 2], np.zeros(len(u), dtype=int))
         ctx.equal("frame_%d_custom_point_data" % k, fr[2]["twice"], 2 * u)
         ctx.equal("frame_%d_custom_cell_data" % k, np.asarray(fr[3]["first_value"][0]), u[:1])
+
+
+def case_job_default_flags(ctx, defaults):
+    """Job.evaluate(filename=...) with the two default-data flags set independently: "Displacement" (point data) iff
+    point_data_default; the two logarithmic-strain items and "Deformation Gradient" (cell data) iff cell_data_default; custom items
+    always.  A load-free linear-elastic body (converges at once in both modes; the linear solver returns the zero update)."""
+    import meshio.xdmf
+
+    with ctx.concrete():
+        m = fem.Rectangle(n=2)
+        region = fem.RegionQuad(m)
+        field = fem.FieldContainer([fem.FieldPlaneStrain(region, dim=2)])
+        mask = np.zeros(m.npoints, dtype=bool)
+        mask[0] = True
+    E = ctx.var("E", 0.5, 5)
+    field[0].values = ctx.const_array(field[0].values)
+    body = fem.SolidBody(fem.LinearElastic(E=E, nu=0.25), field)
+    bounds = {"fix": fem.Boundary(field[0], mask=mask, value=0.0)}
+    step = fem.Step(items=[body], boundaries=bounds)
+    job = fem.Job(steps=[step])
+    Writer.log = []
+    orig = meshio.xdmf.TimeSeriesWriter
+    meshio.xdmf.TimeSeriesWriter = Writer
+    try:
+        job.evaluate(
+            filename="never_written.xdmf",
+            solver=lambda A, b: np.zeros(np.asarray(b.toarray() if hasattr(b, "toarray") else b).shape[0]),
+            verbose=False,
+            point_data_default=defaults[0],
+            cell_data_default=defaults[1],
+            point_data={"twice": lambda field, substep: 2 * field[0].values},
+            cell_data={"first_value": lambda field, substep: [np.asarray(field[0].values)[:1]]},
+        )
+    finally:
+        meshio.xdmf.TimeSeriesWriter = orig
+    frames = [e for e in Writer.log if e[0] == "data"]
+    ctx.check_concrete("one_frame_written", len(frames) == 1, "frames %d" % len(frames))
+    dflt_c = {"Principal Values of Logarithmic Strain", "Logarithmic Strain", "Deformation Gradient"}
+    ok = all((("Displacement" in fr[2]) == bool(defaults[0])) and ("twice" in fr[2]) and ((dflt_c <= set(fr[3])) == bool(defaults[1])) and (defaults[1] or not (dflt_c & set(fr[3]))) and ("first_value" in fr[3]) for fr in frames)
+    ctx.check_concrete("default_point_and_cell_data_follow_their_own_flags", ok and len(frames) == 1, "keys %s" % [(sorted(fr[2]), sorted(fr[3])) for fr in frames][:1])
+    s_ = ctx.var("s", 0.5, 2)
+    ctx.equal("solver_content", s_ * E, E * s_)
 
 
 def case_default_cell_data(ctx):
@@ -251,9 +336,13 @@ def case_default_cell_data(ctx):
 def cases(tier):
     out = [("roundtrip", case_roundtrip, {"cell_type": c}) for c in CELLS]
     out.append(("container_merge", case_container_merge, {}))
+    for comb in (False, True):
+        out.append(("container_as_meshio", case_container_as_meshio, {"combined": comb}))
     for cb in (None, 0, 1):
         out.append(("read_cellblock", case_read_cellblock, {"cellblock": cb}))
     out.append(("job_writer", case_job_writer, {"max_paths": 16}))
     out.append(("job_writer", case_job_writer, {"with_x0": True, "max_paths": 16}))
+    for dflt in ([True, False], [False, True], [False, False], [True, True]):
+        out.append(("job_default_flags", case_job_default_flags, {"defaults": dflt, "max_paths": 8}))
     out.append(("default_cell_data", case_default_cell_data, {}))
     return out
